@@ -547,6 +547,9 @@ open Neatvi.Props.C15 in
 theorem ecGlob_inv (f : Nat) (hbody : ExecOK f) (ed ed' : Ed) (loc cmd arg : Bytes) (r : Int) (hi : EdInv ed)
     (h : ecGlob (f + 1) ed loc cmd arg = some (r, ed')) : EdInv ed' := by
   rw [ecGlob_eq] at h
+  by_cases hdep : ed.xgdep ≥ 7
+  · rw [if_pos hdep] at h; cases h; exact hi.to (by rfl)
+  rw [if_neg hdep] at h
   split at h
   · cases h
   · rename_i rc b e ed1 hr
@@ -590,9 +593,15 @@ theorem ecAt_inv (f : Nat) (hcmd : CmdOK f) (ed ed' : Ed) (loc cmd arg : Bytes) 
       have e1 := hi.to (exRegion_bufs hr)
       split at h
       · cases h; exact e1
-      · simp only [] at h
-        split at h
-        · cases h; exact e1
-        · exact hcmd _ _ _ _ (e1.to (by rfl)) h
+      · split at h
+        · cases h; exact e1.to (by rfl)
+        · simp only [] at h
+          split at h
+          · cases h; exact e1
+          · split at h
+            · cases h
+            · rename_i r2 ed2 hx
+              cases h
+              exact (hcmd _ _ _ _ (e1.to (by rfl)) hx).to (by rfl)
 
 end Neatvi.Lemmas.C02b
